@@ -378,6 +378,13 @@ fn route_reply(sim: &mut Sim, plan: &Plan, mac_to_peer: &BTreeMap<Mac, usize>, r
     }
     let mut dst = [0u8; 6];
     dst.copy_from_slice(&r[..6]);
+    if plan.faults.icmp_error_pm > 0 && sim.rng.below(1000) < plan.faults.icmp_error_pm {
+        if let Some(f) = crate::world::net::icmp_error_for(r, &mut sim.rng) {
+            sim.stats.hit("icmp-error-about-a-reply");
+            let d = 200 + sim.rng.below(2000);
+            sim.net_send(now + d, f, 0);
+        }
+    }
     if let Some(peer) = mac_to_peer.get(&dst) {
         if plan.faults.drop_reply_pm > 0 && sim.rng.below(1000) < plan.faults.drop_reply_pm {
             sim.stats.hit("drop-reply");
